@@ -1,6 +1,15 @@
 /-
   C18 — native (C++) vs Python helpers, compile-only code paths: property theorems.
-  Models: Gen.PyFuns (regenerated from /repo on every run), Model.Key (hand, tied by correspondence).
+  Regenerated from /repo on every run: Gen.PyFuns (`_slice_indices`, `infer_size_impl`, `_infer_size_impl`,
+  `_maybe_correct_neg_dim`, translator self-test functions), Gen.DualHelpers.
+  Hand models, each tied to the code by a correspondence stream that forces both branches of `is_compiling()`:
+  Model.Key (C++ / Python key helpers, pybind dispatch, exception classes), Model.Compile (`_parse_batch_size`,
+  `_values_list/_items_list`), Model.CheckKeys (`_check_keys`, Sequential key union), Model.ParseTo (`_parse_to` twin),
+  Model.NewUnsafe (`_new_unsafe`), Model.FromTd (`_from_tensordict`), Model.Memo (memoised class predicates),
+  Model.Consolidate (contiguity test of `consolidate`), Model.InferSize (hand model + closed form + torch's rule),
+  Model.SliceSpec (CPython `slice.indices`).
+  `_partial` theorems state in their doc comment the full statement that is false of the code, and come with a proved
+  counter-witness that the harness replays on the implementation.
 -/
 import TdVerif.Gen.PyFuns
 import TdVerif.Model.SliceSpec
